@@ -3,7 +3,7 @@ rustdoc JSON (the compiler's own list of items, visibilities, const-ness, trait 
 import os, json, time, shutil, subprocess, collections
 from concurrent.futures import ThreadPoolExecutor
 import render_verdict, engine_verdict, judge, run_rt, stimuli
-from tlc import run_tlc, tlc_ok, printed, ToolError
+from tlc import atomic_dump, run_tlc, tlc_ok, printed, ToolError
 from common import cached, log, WORK, REPO
 
 NCRATES = 8
@@ -25,7 +25,7 @@ def gen_cases():
     if len(cs) != st["distinct"]:
         raise ToolError("SurfaceGen: CASE lines do not match states")
     res = {"cases": cs, "stats": st}
-    json.dump(res, open(cache, "w"))
+    atomic_dump(res, cache)
     return res
 
 
